@@ -144,6 +144,7 @@ type averageSpeed struct {
 	start    time.Time
 	producer func(float64) string
 	msg      string
+	frozen   bool
 }
 
 func (d *averageSpeed) Decor(s Statistics) (string, int) {
@@ -151,10 +152,11 @@ func (d *averageSpeed) Decor(s Statistics) (string, int) {
 		speed := float64(s.Current) / float64(time.Since(d.start))
 		d.msg = d.producer(speed * 1e9)
 	}
-	if d.msg == "" {
-		// first frame of a bar which has completed already
+	if s.Completed && !d.frozen {
+		// first frame of a bar which has completed: the speed it made
 		speed := float64(s.Current) / float64(time.Since(d.start))
 		d.msg = d.producer(speed * 1e9)
+		d.frozen = true
 	}
 	return d.Format(d.msg)
 }
